@@ -32,6 +32,8 @@ type StoreOp struct {
 	D  string   `json:"d"`
 	Ns []string `json:"ns"`
 	F  string   `json:"f"`
+	// Flt: a fault injected into the backend operation that carries the call
+	Flt string `json:"flt"`
 }
 
 type storeConc struct {
@@ -236,6 +238,34 @@ func (w *storeWorld) do(ctx context.Context, op StoreOp, ev map[string]interface
 	cols := []string{}
 	var err error
 	p := w.sc.path(w.srv, op.C, op.N)
+	if op.Flt != "" {
+		var ferr error
+		switch op.Flt {
+		case "h403":
+			ferr = webdav.NewHTTPError(http.StatusForbidden, fmt.Errorf("injected"))
+		case "h503":
+			ferr = webdav.NewHTTPError(http.StatusServiceUnavailable, fmt.Errorf("injected"))
+		case "w507":
+			ferr = fmt.Errorf("storage layer: %w", webdav.NewHTTPError(http.StatusInsufficientStorage, fmt.Errorf("injected")))
+		default:
+			ferr = fmt.Errorf("injected plain failure")
+		}
+		kind := map[string][2]string{"put": {"PutCalendarObject", "PutAddressObject"}, "get": {"GetCalendarObject", "GetAddressObject"}, "mget": {"GetCalendarObject", "GetAddressObject"},
+			"del": {"DeleteCalendarObject", "DeleteAddressObject"}, "query": {"QueryCalendarObjects", "QueryAddressObjects"}, "cols": {"ListCalendars", "ListAddressBooks"},
+			"mkcol": {"CreateCalendar", "CreateAddressBook"}}[op.Op]
+		if w.srv == "cal" {
+			w.calBe.FailOnce(kind[0], ferr)
+		} else {
+			w.cardBe.FailOnce(kind[1], ferr)
+		}
+		defer func() {
+			if w.calBe.FailPending() || w.cardBe.FailPending() {
+				ev["unreached"] = true // the carrying operation was never called
+			}
+			w.calBe.ClearFail()
+			w.cardBe.ClearFail()
+		}()
+	}
 	switch op.Op {
 	case "put":
 		w.recv = "?none"
@@ -375,7 +405,7 @@ func runStore(in, concName string, emit func(interface{})) {
 				if op.Ns == nil {
 					op.Ns = []string{}
 				}
-				ev := map[string]interface{}{"k": "sstep", "srv": srv, "hi": hi, "si": si, "op": op, "err": false, "code": 0, "msg": "", "panic": false, "hang": false,
+				ev := map[string]interface{}{"k": "sstep", "srv": srv, "hi": hi, "si": si, "op": op, "err": false, "code": 0, "msg": "", "panic": false, "hang": false, "unreached": false,
 					"objs": []sRow{}, "cols": []string{}}
 				done := make(chan struct{})
 				ctx, cancel := context.WithTimeout(context.Background(), 20*time.Second)
@@ -391,7 +421,7 @@ func runStore(in, concName string, emit func(interface{})) {
 				select {
 				case <-done:
 				case <-time.After(30 * time.Second):
-					ev = map[string]interface{}{"k": "sstep", "srv": srv, "hi": hi, "si": si, "op": op, "err": false, "code": 0, "msg": "", "panic": false, "hang": true,
+					ev = map[string]interface{}{"k": "sstep", "srv": srv, "hi": hi, "si": si, "op": op, "err": false, "code": 0, "msg": "", "panic": false, "hang": true, "unreached": false,
 						"objs": []sRow{}, "cols": []string{}}
 				}
 				cancel()
